@@ -226,6 +226,7 @@ class MDAQuasiNewton(BaseMDARoot):
                 "disciplines once."
             )
             LOGGER.warning(msg)
+            self._execute_weakly_coupled_disciplines()
             self.io.data[self.NORMALIZED_RESIDUAL_NORM] = array([0.0])
             return self.io.data
 
@@ -251,6 +252,7 @@ class MDAQuasiNewton(BaseMDARoot):
         self._warn_convergence_criteria()
 
         self._update_local_data_from_array(y_opt.x)
+        self._execute_weakly_coupled_disciplines()
 
         if self.settings.method in self._METHODS_SUPPORTING_CALLBACKS:
             self.io.update_output_data({
